@@ -313,6 +313,7 @@ impl World {
                         kind: cmd["kind"].as_str().unwrap().to_string(),
                         h: cmd["h"].as_u64().unwrap(),
                         d: cmd["d"].as_u64().unwrap_or(0),
+                        then: cmd["then"].as_str().filter(|s| !s.is_empty()).map(|s| s.to_string()),
                     });
                     }
                     self.run_actor(&a);
